@@ -7,7 +7,7 @@ namespace simw {
 
 namespace ops = bspline::operators;
 
-constexpr int N_RECIPES = 15;
+constexpr int N_RECIPES = 18;
 constexpr int FIRST_FACTOR_RECIPE = 12;  // recipes >= this hold a spline factor
 
 inline bool recipe_has_factor(int r) { return r % N_RECIPES >= FIRST_FACTOR_RECIPE; }
@@ -32,14 +32,19 @@ void with_plain_recipe(int r, const T &s, F &&f) {
   }
 }
 
-// recipes holding a spline factor v (order <= MAXFACT)
+// recipes holding a spline factor v (order <= MAXFACT); `s` is a non-zero
+// scalar. The factor also appears underneath scalar wrappers (scalar * operator,
+// unary minus, operator / scalar): every wrapper has to pass the grid check on.
 template <class V, class F>
-void with_factor_recipe(int r, const V &v, F &&f) {
+void with_factor_recipe(int r, const V &v, const T &s, F &&f) {
   using namespace bspline::operators;
   switch ((r % N_RECIPES) - FIRST_FACTOR_RECIPE) {
     case 0: f(SplineOperator{v}); break;
     case 1: f(SplineOperator{v} * Dx<1>{}); break;
-    default: f(X<1>{} * SplineOperator{v} + IdentityOperator{}); break;
+    case 2: f(X<1>{} * SplineOperator{v} + IdentityOperator{}); break;
+    case 3: f(s * SplineOperator{v}); break;
+    case 4: f(-SplineOperator{v}); break;
+    default: f(SplineOperator{v} / s + Dx<1>{}); break;
   }
 }
 
